@@ -172,7 +172,7 @@ func replayRecording(rec *Recording, opts lab.NodeOpts, withCrashes bool, label 
 			}
 			lastHash = h
 			freshProcess = false
-			if crash == 4 {
+			if crash == 4 || (withCrashes && opts.RestartEvery) {
 				crash = 0
 				if m := reopen(bi, "after Commit"); m != "" {
 					return m, stats
@@ -261,6 +261,7 @@ func genNodeOpts(t *rapid.T) lab.NodeOpts {
 		FastNodeOff:     uni(t, 2, "fastnodeOff") == 1,
 		InterBlockCache: uni(t, 2, "interBlockCache") == 1,
 		Noise:           pick(t, []int{0, 1, 2, 2}, "noise"),
+		RestartEvery:    oneIn(t, 4, "restartEvery"),
 	}
 }
 
@@ -303,6 +304,9 @@ func runC01(s *Scenario, opts lab.NodeOpts, ev *Evidence) []Finding {
 		}
 		ev.Count("c01.nodeB.db."+opts.DB, 1)
 		ev.Count(fmt.Sprintf("c01.nodeB.noise.%d", opts.Noise), 1)
+		if opts.RestartEvery {
+			ev.Count("c01.nodeB.restart-after-every-commit", 1)
+		}
 		nt := w.Classes["c01.ok-custom-tx"] > 0 && w.Classes["c01.failed-tx"] > 0 && (stats["restarts-after-tx"] > 0 || opts.DB != "mem" || opts.Pruning != "default")
 		ev.Eval(s.Hash(), nt)
 		if wantTrace && msg == "" {
